@@ -15,6 +15,7 @@ import (
 	"sync"
 	"time"
 
+	"github.com/hashicorp/hcl-lang/decoder"
 	"github.com/hashicorp/hcl-lang/lang"
 	"github.com/hashicorp/hcl-lang/reference"
 	"github.com/hashicorp/hcl-lang/schema"
@@ -124,8 +125,15 @@ func exprSchema(c *ExprCase) *schema.BodySchema {
 			"loc": {Body: &schema.BodySchema{AnyAttribute: &schema.AttributeSchema{IsOptional: true,
 				Address:    &schema.AttributeAddrSchema{Steps: schema.Address{schema.StaticStep{Name: "loc"}, schema.AttrNameStep{}}, ScopeId: "local", AsExprType: true, AsReference: true},
 				Constraint: schema.AnyExpression{OfType: cty.DynamicPseudoType}}}},
-			"b": {Body: &schema.BodySchema{Extensions: ext(1), Attributes: map[string]*schema.AttributeSchema{"v": v()},
-				Blocks: map[string]*schema.BlockSchema{"in": {Body: &schema.BodySchema{Extensions: ext(2), Attributes: map[string]*schema.AttributeSchema{"v": v()}}}}}},
+			"b": {
+				Address: &schema.BlockAddrSchema{Steps: schema.Address{schema.StaticStep{Name: "b"}}, ScopeId: "blk", AsReference: true, BodyAsData: true, InferBody: true, BodySelfRef: true},
+				Body: &schema.BodySchema{Extensions: ext(1), Attributes: map[string]*schema.AttributeSchema{"v": v(),
+					"sa": {IsOptional: true, Constraint: schema.AnyExpression{OfType: cty.String}}},
+					Blocks: map[string]*schema.BlockSchema{
+						"part": {Type: schema.BlockTypeList, Body: &schema.BodySchema{Attributes: map[string]*schema.AttributeSchema{
+							"pw": {IsOptional: true, Constraint: schema.AnyExpression{OfType: cty.Number}},
+							"ph": {IsOptional: true, Constraint: schema.AnyExpression{OfType: cty.Number}}}}},
+						"in": {Body: &schema.BodySchema{Extensions: ext(2), Attributes: map[string]*schema.AttributeSchema{"v": v()}}}}}},
 		},
 	}
 }
@@ -134,6 +142,8 @@ func exprFuncs() map[string]schema.FunctionSignature {
 	fs := stdFuncs()
 	return fs
 }
+
+const bDecl = "b {\n  sa = \"x\"\n  part {\n    pw = 1\n    ph = 2\n  }\n  part {\n    pw = 3\n    ph = 4\n  }\n"
 
 const locDecl = "loc {\n  s = \"x\"\n  n = 1\n  b = true\n  l = [\"p\", \"q\"]\n  o = { k = \"v\", n = 2 }\n  m = { a = \"1\" }\n}\n"
 
@@ -170,10 +180,10 @@ func runExprCase(wt *watch, c *ExprCase, idx int, style int) Event {
 	ind := ""
 	switch c.Level {
 	case 1:
-		sb.WriteString("b {\n")
+		sb.WriteString(bDecl)
 		ind = "  "
 	case 2:
-		sb.WriteString("b {\n  in {\n")
+		sb.WriteString(bDecl + "  in {\n")
 		ind = "    "
 	}
 	sb.WriteString(ind + "v = ")
@@ -219,8 +229,113 @@ func runExprCase(wt *watch, c *ExprCase, idx int, style int) Event {
 		}
 	}
 	ev["origins"] = origins
+	// ---- tokens inside the value (C13): projected to (type, start, end)
+	vFull := ext[""].Full
+	toks := [][]interface{}{}
+	tko := env.Run(wt, Q{Kind: "tokens", Path: "p1", File: "a.tf"})
+	ev["tkstatus"] = tko.Status
+	if ts, ok := tko.Value.([]lang.SemanticToken); ok {
+		for _, t := range ts {
+			if t.Range.Start.Byte >= vFull[0] && t.Range.End.Byte <= vFull[1] {
+				toks = append(toks, []interface{}{string(t.Type), t.Range.Start.Byte, t.Range.End.Byte})
+			}
+		}
+	}
+	ev["tokens"] = toks
+	// step extents of reference leaves as a token would cover them
+	stepExt := map[string][][]int{}
+	nameExt := map[string][]int{}
+	var walk func(e *AExpr, path string)
+	sub := func(path, p string) string {
+		if path == "" {
+			return p
+		}
+		return path + "." + p
+	}
+	leafPaths := []string{}
+	walk = func(e *AExpr, path string) {
+		x := ext[path]
+		switch e.K {
+		case "ref":
+			leafPaths = append(leafPaths, path)
+			se := [][]int{}
+			for i, st := range e.Steps {
+				r := x.Steps[i]
+				switch st.K {
+				case "idx":
+					se = append(se, []int{r[0] + 1, r[1] - 1})
+				case "key":
+					se = append(se, []int{r[0] + 1, r[1] - 1})
+				case "legacy":
+					se = append(se, []int{r[0] + 1, r[1]})
+				case "splat":
+					se = append(se, []int{r[0], r[1]})
+				default:
+					se = append(se, []int{r[0], r[1]})
+				}
+			}
+			stepExt[path] = se
+		case "lit", "kw", "type":
+			leafPaths = append(leafPaths, path)
+		case "call":
+			nameExt[path] = []int{x.Name[0], x.Name[1]}
+		}
+		for i, c := range e.Es {
+			if c.K == "text" {
+				continue
+			}
+			walk(c, sub(path, fmt.Sprintf("es.%d", i+1)))
+		}
+		for i, it := range e.Items {
+			if it.Key.K != "id" && it.Key.K != "str" {
+				walk(it.Key, sub(path, fmt.Sprintf("items.%d.key", i+1)))
+			}
+			walk(it.Val, sub(path, fmt.Sprintf("items.%d.val", i+1)))
+		}
+		for n, c := range map[string]*AExpr{"l": e.L, "r": e.R, "e": e.E, "c": e.C, "tt": e.Tt, "ff": e.Ff, "key": e.Key, "coll": e.Coll, "body": e.Body} {
+			if c != nil {
+				walk(c, sub(path, n))
+			}
+		}
+	}
+	walk(c.Expr, "")
+	sort.Strings(leafPaths)
+	ev["stepext"] = stepExt
+	ev["nameext"] = nameExt
+	// ---- hover (C12) and go-to-definition (C11) at every leaf
+	hovers := [][]interface{}{}
+	lookups := [][]interface{}{}
+	for _, lp := range leafPaths {
+		x := ext[lp]
+		off := (x.Full[0] + x.Full[1]) / 2
+		pos := PosAt(src, off)
+		ho := env.Run(wt, Q{Kind: "hover", Path: "p1", File: "a.tf", Pos: pos})
+		hr := []interface{}{lp, off, ho.Status, -1, -1, ""}
+		if h, ok := ho.Value.(*lang.HoverData); ok && h != nil && ho.Status == "ok" {
+			hr = []interface{}{lp, off, "ok", h.Range.Start.Byte, h.Range.End.Byte, h.Content.Value}
+		}
+		hovers = append(hovers, hr)
+		if x.Kind == "ref" {
+			g := env.Run(wt, Q{Kind: "gotodef", Path: "p1", File: "a.tf", Pos: pos})
+			defs := []string{}
+			if rts, ok := g.Value.(decoder.ReferenceTargets); ok {
+				for _, t := range rts {
+					txt := "?"
+					if t.DefRangePtr != nil && t.DefRangePtr.Filename == "a.tf" && t.DefRangePtr.End.Byte <= len(src) {
+						txt = strings.Trim(string(src[t.DefRangePtr.Start.Byte:t.DefRangePtr.End.Byte]), "\"")
+					} else if t.Range.Filename == "a.tf" && t.Range.End.Byte <= len(src) {
+						txt = "@" + strings.Trim(string(src[t.Range.Start.Byte:t.Range.End.Byte]), "\"")
+					}
+					defs = append(defs, txt)
+				}
+			}
+			sort.Strings(defs)
+			lookups = append(lookups, []interface{}{lp, g.Status, defs})
+		}
+	}
+	ev["hovers"] = hovers
+	ev["lookups"] = lookups
 	_ = hcl.Pos{}
-	_ = sort.Strings
 	return ev
 }
 
